@@ -47,6 +47,7 @@ import DafRel.Lemmas.SqlApply
 import DafRel.Lemmas.BacktrackJoin
 import DafRel.Bridge.Ops
 import DafRel.Bridge.RelOps
+import DafRel.Bridge.JoinOps
 
 namespace DafRel.Props.C03
 
